@@ -16,3 +16,13 @@ import SpoxModel.Props.C13
 #print axioms C13.broadcast_sound
 #print axioms C13.broadcast_raises_only_if_impossible
 #print axioms C13.broadcast_unknown_rank
+#print axioms C13.fromSimple_toSimple
+#print axioms C13.broadcastArg_spelling
+#print axioms C13.broadcastArg_congr
+#print axioms C13.broadcastArg_none
+#print axioms C13.broadcastArg_sound
+#print axioms C13.canBroadcast_false_only_if_impossible
+#print axioms C13.broadcast_comm
+#print axioms C13.type_layer_inventory
+#print axioms C13.broadcast_rank
+#print axioms C13.subtype_symm
